@@ -334,7 +334,7 @@ def run(ctx):
                 rel=lambda c, e, g: e is None and isinstance(g, list) and all(o[0][0] == 'err' and o[0][1] == 'RbqlIOHandlingError' for o in g),
                 describe=lambda c, e, g: 'invalid UTF-8 bytes %r not rejected uniformly: %r' % (c['data'], g))
     ctx.stat('invalid_utf8_samples', len(inv))
-    ctx.sample({'bytes': bcases[0]['data'], 'encoding': bcases[0]['encoding'], 'spec': b_exp[0], 'implementation_outcomes_over_all_partitions': b_got[0]})
+    ctx.sample_safe(lambda: {'bytes': bcases[0]['data'], 'encoding': bcases[0]['encoding'], 'spec': b_exp[0], 'implementation_outcomes_over_all_partitions': b_got[0]})
 
 
 def single_table(c, text):
